@@ -238,7 +238,7 @@ class _MetricCache(defaultdict):
         # pop under the same lock, a store in between would invalidate the
         # strategy's choice (and the buckets of the bucketmax strategy)
         datapoint_index = self._pop(metric)
-      self._check_available_space()
+        self._check_available_space()
       return (metric, sorted(datapoint_index.items(), key=by_timestamp))
     # Avoid .keys() as it dumps the whole list
     metric = next(iter(self))
@@ -257,7 +257,9 @@ class _MetricCache(defaultdict):
   def pop(self, metric):
     with self.lock:
       datapoint_index = self._pop(metric)
-    self._check_available_space()
+      # under the lock like the fullness check in store(), the handlers of the
+      # two events must not interleave
+      self._check_available_space()
 
     return sorted(datapoint_index.items(), key=by_timestamp)
 
